@@ -82,7 +82,10 @@ def chef(m, serial):
 
 
 def mand(m, plt, serial):
-    return m['amr_kitchen.mandoline.mandoline'].Mandoline(plt, fields=['density', 'grid_level'], serial=serial, verbose=0)
+    # several fields, not in the plotfile's order, the level map in between: what a worker does to its (pickled) copy of
+    # the request must not matter to how the parent labels the result
+    fields = ['temp', 'grid_level', 'density'] if plt == 'plt2d' else ['volFrac', 'grid_level', 'density', 'a']
+    return m['amr_kitchen.mandoline.mandoline'].Mandoline(plt, fields=fields, serial=serial, verbose=0)
 
 
 def whip(m):
